@@ -514,6 +514,8 @@ class ModelGen:
             outs.append(H.make_tensor_value_info(v, TP.DOUBLE if v in g.vals["D"] else TP.INT64, [3]))
         self.apply_refusal(g)
         gname = r.choice(["g", "main_graph", "my.graph", "1st", "class", "torch-jit-export"]) if self.namer.scheme != "clean" else r.choice(["g", "main_graph"])
+        if self.refusal == "empty_graph_name":
+            gname = ""  # `_cleanup_variable_name("")`: AssertionError
         graph = H.make_graph(g.nodes, gname, inputs, outs, initializer=g.inits)
         if self.refusal == "sparse":
             sp = H.make_sparse_tensor(
@@ -526,7 +528,7 @@ class ModelGen:
     def apply_refusal(self, g: G):
         r = self.rng
         k = self.refusal
-        if k is None or k in ("sparse", "nostop", "nostop_done"):
+        if k is None or k in ("sparse", "nostop", "nostop_done", "empty_graph_name"):
             return
         o = self.namer.new()
         x = self.pick(g, "F")
@@ -561,6 +563,9 @@ class ModelGen:
             body = H.make_graph([H.make_node("Neg", [x], ["q_out"])], "q", [], [H.make_tensor_value_info("q_out", TP.FLOAT, [3])])
             n = H.make_node("If", [self.bool_scalar(g)], [o], then_branch=body)
             pos = len(g.nodes)
+        elif k == "const_no_attr":
+            # `_get_const_repr` reads attribute[0]: IndexError under inline_const
+            n = H.make_node("Constant", [], [o])
         elif k == "no_opset":
             n = H.make_node("Foo", [x], [o], domain="unimported.domain")
         else:
@@ -568,7 +573,10 @@ class ModelGen:
         g.nodes.insert(pos, n)
 
 
-REFUSALS = ["sparse", "scan", "graphattr", "attr_type_proto", "attr_tensors", "attr_sparse", "attr_graphs", "if_one_attr", "no_opset", "nostop"]
+REFUSALS = ["sparse", "scan", "graphattr", "attr_type_proto", "attr_tensors", "attr_sparse", "attr_graphs", "if_one_attr", "no_opset", "nostop",
+            "empty_graph_name", "const_no_attr"]
+# refused only under some option tuples (the others print text that is not judged)
+PARTIAL_REFUSALS = {"const_no_attr"}
 
 
 def feeds_for(model: onnx.ModelProto, rng, k: int = 3):
